@@ -222,9 +222,15 @@ class ProgramIndex:
         from .normalize import destructure_indexed_results
 
         self.normalised += destructure_indexed_results(trees_)
+        from .normalize import destructure_named_results
+
+        self.normalised += destructure_named_results(trees_)
         from .normalize import inline_simple_generators
 
         self.normalised += inline_simple_generators(trees_)
+        from .normalize import expand_generator_scopes
+
+        self.normalised += expand_generator_scopes(trees_)
         for m in self.modules.values():
             self._index_module(m)
         self.digest = digest.hexdigest()
